@@ -136,6 +136,46 @@ def _kill_leaves_journal(old, existed, block, kill_at, torn, compress, torn_all=
     return arch == old or arch == full
 
 
+def _kill_at_startup(kill_at, torn, compress, appending, rollover):
+    """The process dies while a recorder is being constructed (its warcinfo record is the first append of the run - onto an existing
+    archive when appending)."""
+    from harness import warcenv
+    k = pick(list(range(1, 25)), kill_at - 1)
+    t = pick([0, 1, 2, 3], torn)
+    ext = '.warc.gz' if compress else '.warc'
+    name = ('out-00000' if rollover else 'out') + ext
+    params = dict(compress=compress, appending=appending, max_size=(1000000 if rollover else None))
+    with nosym():
+        old = b''
+        if appending:
+            fs0 = fakefs.FS()
+            warcenv.new_recorder(fs0, **dict(params, appending=False)).close()
+            old = bytes(fs0.files[name])                 # what an earlier run left: a valid archive (warcinfo record [+ meta])
+        fs = fakefs.FS(kill_at=k, torn=t, torn_all=3)
+        if appending:
+            fs.files[name] = old
+        try:
+            warcenv.new_recorder(fs, **params)
+        except fakefs.Killed:
+            pass
+    if fs.snapshot is None:
+        hit('not-killed')
+        return True
+    hit('killed')
+    snap = fs.snapshot
+    arch = bytes(snap.get(name, b''))
+    jn = name + '-wpullinc'
+    if jn in snap and _journal_ok(snap[jn], len(old)):
+        hit('journal-present')
+        return arch[:len(old)] == old
+    hit('journal-absent')
+    if arch == old:
+        return True
+    with nosym():
+        recs = warcenv.read_records(arch, compress)
+    return arch[:len(old)] == old and recs is not None   # no journal: the archive must be a valid record sequence as it stands
+
+
 _PREFIXES = ['x', 'foo[1]', 'a*b', 'q?', 'dir.d/x-y', '[!a]', 'x[']
 
 
@@ -182,6 +222,15 @@ HARNESSES = [
       funcs=['wpull/warc/recorder.py:WARCRecorder.write_record'],
       doc='for every operation at which the process dies (incl. torn writes): the snapshot has a complete journal naming the '
           'pre-append length with the old bytes intact below it, or the archive is old / old + the complete record'),
+    H('kill_at_startup', '_kill_at_startup', 'kill_at: int, torn: int, compress: bool, appending: bool, rollover: bool',
+      pre=['1 <= kill_at <= 24 and 0 <= torn <= 3'], timeout={'quick': 250, 'thorough': 600},
+      parts=[{'tag': 'append' if a else 'new', 'fix': {'appending': str(a)}} for a in (False, True)],
+      samples=[(3, 1, False, True, False), (8, 0, True, True, True), (24, 0, False, False, False)],
+      need=['killed', 'not-killed', 'journal-present', 'journal-absent'],
+      funcs=['wpull/warc/recorder.py:WARCRecorder.__init__', 'wpull/warc/recorder.py:WARCRecorder._start_new_warc_file', 'wpull/warc/recorder.py:WARCRecorder.write_record'],
+      doc='the process dies at each of the first 24 file operations of constructing a recorder (warcinfo record = first append of the run, '
+          'onto an earlier run\'s archive when appending; plain / gzip / numbered files): a journal naming the old length is present with '
+          'the old bytes intact, or the archive is a valid record sequence as it stands'),
     H('refuses_to_start', '_refuses_to_start', 'which: int, compress: bool, max_size: bool, appending: bool, prefix_i: int',
       pre=['0 <= which <= 4 and 0 <= prefix_i < %d' % len(_PREFIXES)], timeout={'quick': 120, 'thorough': 300},
       samples=[(0, False, False, False, 0), (4, True, True, True, 1)], need=['refused', 'started'],
